@@ -265,3 +265,14 @@ var _ = shared.NewCounter
 //@ func (*Interpreter).validateAndSetParameters [C13]
 //@   loop 1 invariant forall s string :: i.localVars[s] == old(i.localVars[s]) || fresh(i.localVars[s]) || is(i.localVars[s], *value.null)
 //@   ensures [parameters-are-new-objects C13] forall s string :: i.localVars[s] == old(i.localVars[s]) || fresh(i.localVars[s]) || is(i.localVars[s], *value.null)
+
+// ---- C13: value objects are written in place only by the assignment machinery ---------------------------
+// Write-site scan over the whole module (K5, every run): the only functions that contain a store into a
+// field of an EXISTING object of a type of package value (initialising a new object does not count) are
+// the assignment operators of package assign (their frames - only the left operand - are proved above),
+// the variable setters of package variable, the director configuration, Ratecounter.Increment and the
+// tester's inject function. No expression evaluator, operator or built-in function is among them: evaluating
+// an expression cannot change a variable's value object in place.
+// (Not seen by the scan: (*value.Time).Set, whose field is a struct of package time.)
+//@ func (*Interpreter).ProcessExpression [C13]
+//@   only-writers [C13] F:interpreter/value. : Assign Addition Subtraction Multiplication Division Remainder BitwiseAND BitwiseOR BitwiseXOR LeftShift RightShift LeftRotate RightRotate LogicalAND LogicalOR UpdateHash Set Unset assignHeaderValue getDirectorConfig getDirectorConfigBackend setDirectorConfigProperty Increment Testing_inject_variable
